@@ -936,7 +936,14 @@ class Interp(object):
             obj = self.eval(tg.value, env, func)
             key = self.eval_index(tg.slice, env, func)
             if isinstance(obj, Arr):
-                raise AbstractError("abstract arrays are immutable (item assignment)")
+                # numpy-style in-place item assignment is supported for configuration arrays only
+                # (concrete tables such as the Levi-Civita symbol); jax arrays are immutable
+                v = val
+                if not obj.is_concrete() or (isinstance(v, Arr) and not v.is_concrete()) or isinstance(v, Poly):
+                    raise AbstractError("item assignment to an abstract (jax) array")
+                new = A.setitem(obj, key, v)
+                obj.elems = new.elems
+                return
             obj[key] = val
         else:
             raise Unsupported("assignment target %s" % t.__name__)
